@@ -955,6 +955,126 @@ def b6_steps(variant):
     return [[None, d], [n, d], [d, d2], [d, None], [None, n, d], [d2, d, None]]
 
 
+# ---- B7: the public collection entry point collect.collect(manifest=..., rm_conf=...) ---------------------------------
+
+B7_DENY = [("none", None), ("component", "cmd"), ("component", "file"), ("symbolic-commands", "cmd"), ("symbolic-commands", "file"),
+           ("symbolic-files", "cmd"), ("symbolic-files", "file"), ("path", "file"), ("command", "cmd")]
+B7_MANIFEST = [("prefix", False), ("exact", False), ("none", False), ("none", True)]     # (how plugins.configs covers the denied component, default_component_enabled)
+B7_OUT = {"s_cmd": "data/insights_commands/echo_a_b", "s_file": "data/g/a", "c_cmd": "data/insights_commands/echo_ab",
+          "c_file": "data/g/b", "date": "data/insights_commands/date", "hosts": "data/etc/hosts"}
+B7_ITEM = {"s_cmd": "/bin/echo a b", "s_file": "/g/a", "c_cmd": "/bin/echo ab", "c_file": "/g/b", "date": "/bin/date", "hosts": "/etc/hosts"}
+
+
+def b7_check(case):
+    """Host collection through insights.collect.collect with a manifest (plugins.default_component_enabled / configs by
+    prefix or exact name, client.persist, client.context) and the user's redaction config (rm_conf).  The context named by
+    the manifest is a recording HostContext (its `__class__` answers HostContext, so the specs that depend on HostContext -
+    the private ones and the real DefaultSpecs.date / .hosts - run under it; nothing is executed).
+    case: {"part":"B7","deny": kind, "target": "cmd"|"file"|None, "cover": "prefix"|"exact"|"none", "default_enabled": bool}
+    Oracle: the denied spec's command is never run, its file never opened, nothing of it persisted; every spec that the
+    manifest enables and the deny list does not name is collected."""
+    I = imp()
+    dr, sf, HC = I["dr"], I["sf"], I["cx"].HostContext
+    import insights.specs.default  # noqa: F401  (symbolic names only resolve against DefaultSpecs)
+    Rec = E.recording_context_class()
+    deny, tgt, cover, default_enabled = case["deny"], case.get("target"), case["cover"], case["default_enabled"]
+    with scratch("c06b") as base:
+        T, root = E.build_universe(base, extra_files=B_FILES)
+        with E.GlobalState():
+            b = Built()
+            LOG = []
+
+            def _init(self, root="/", timeout=30, all_files=None):
+                Rec.__init__(self, root=root, timeout=timeout, all_files=all_files, log=LOG)
+            Ctx = type("Ctx", (Rec,), {"__module__": b.modname, "__init__": _init, "__class__": property(lambda self: HC)})
+            b.mod.Ctx = Ctx
+            try:
+                b.add("s_cmd", sf.simple_command("/bin/echo a b", context=HC), "single", [], "command")
+                b.add("s_file", sf.simple_file("/g/a", context=HC), "single", [], "file")
+                b.add("c_cmd", sf.simple_command("/bin/echo ab", context=HC), "single", [], "command")
+                b.add("c_file", sf.simple_file("/g/b", context=HC), "single", [], "file")
+                b.finish()
+                full = {"date": ("insights.specs.default.DefaultSpecs.date", "insights.specs.Specs.date"),
+                        "hosts": ("insights.specs.default.DefaultSpecs.hosts", "insights.specs.Specs.hosts")}
+                for sp in b.specs:
+                    full[sp["name"]] = (dr.get_name(sp["impl"]), dr.get_name(sp["rp"]))
+                # which spec the deny entry names
+                if deny in ("component", "path", "command"):
+                    denied = "s_cmd" if tgt == "cmd" else "s_file"
+                elif deny.startswith("symbolic"):
+                    denied = "date" if tgt == "cmd" else "hosts"
+                else:
+                    denied = None
+                rm_conf = {}
+                if deny == "component":
+                    rm_conf = {"components": [full[denied][0]]}
+                elif deny == "symbolic-commands":
+                    rm_conf = {"commands": [denied]}
+                elif deny == "symbolic-files":
+                    rm_conf = {"files": [denied]}
+                elif deny == "path":
+                    rm_conf = {"files": ["/g/a"]}
+                elif deny == "command":
+                    rm_conf = {"commands": ["/bin/echo a"]}
+                configs = []
+                for name in sorted(full):
+                    how = cover if name == denied else "exact"
+                    if how == "none":
+                        continue
+                    for fq in full[name]:
+                        configs.append({"name": fq if how == "exact" else fq[:-1], "enabled": True})     # prefix: the name minus its last letter
+                manifest = {"version": 0,
+                            "client": {"context": {"class": b.modname + ".Ctx", "args": {"root": root, "timeout": 10}},
+                                       "blacklist": {"files": [], "commands": [], "patterns": [], "keywords": []},
+                                       "persist": [{"name": full[n][1], "enabled": True} for n in sorted(full)],
+                                       "run_strategy": {"name": "serial", "args": {}}},
+                            "plugins": {"default_component_enabled": default_enabled, "packages": [], "configs": configs}}
+                with E.audit(base) as sink:
+                    with E.quiet_stderr():
+                        out, _errs = I["collect"].collect(manifest=manifest, rm_conf=rm_conf, tmp_path=os.path.join(T, "o1"),
+                                                         archive_name="out")
+                persisted = set()
+                for dp, _dn, fn in os.walk(out):
+                    for f in fn:
+                        persisted.add(os.path.relpath(os.path.join(dp, f), out))
+                lines, _argvs = E.logged_command_lines(LOG)
+                opens = set(p for ev, p in sink if ev == "open" and p.startswith(root + "/"))
+                blacklisted = list(I["blacklist"].BLACKLISTED_SPECS)
+            finally:
+                b.dispose()
+                reg = I["cx"].ExecutionContextMeta.registry
+                if Ctx in reg:
+                    reg.remove(Ctx)
+    viols = []
+    got = {}
+    for name in sorted(B7_OUT):
+        enabled = default_enabled or not (name == denied and cover == "none")
+        is_denied = name == denied
+        exp = enabled and not is_denied
+        item = B7_ITEM[name]
+        ran = item in lines if name in ("s_cmd", "c_cmd", "date") else (root + item) in opens
+        kept = B7_OUT[name] in persisted
+        got[name] = [ran, kept]
+        if is_denied:
+            if ran:
+                viols.append(("deny:denied-command-executed" if name in ("s_cmd", "date") else "deny:denied-file-opened",
+                              "nothing of the deny-listed spec %s is run / opened by collect()" % name,
+                              {"executed" if name in ("s_cmd", "date") else "opened": item}, {"entry_point": "collect"}))
+            if kept:
+                viols.append(("deny:denied-item-persisted", "nothing of the deny-listed spec %s in the archive" % name,
+                              {"persisted": B7_OUT[name]}, {"entry_point": "collect"}))
+            if deny in ("component", "symbolic-commands", "symbolic-files") and name not in blacklisted:
+                viols.append(("deny:denied-spec-not-reported", {"BLACKLISTED_SPECS contains": name},
+                              {"BLACKLISTED_SPECS": blacklisted}, {"entry_point": "collect"}))
+        elif exp and not (ran and kept):
+            viols.append(("deny:allowed-item-not-collected", {"spec": name, "run/opened": True, "persisted": True},
+                          {"spec": name, "run/opened": ran, "persisted": kept}, {"entry_point": "collect"}))
+    info = {"nontrivial": denied is not None and (default_enabled or cover != "none"),
+            "outcome": "B7:%s:%s:%s:%s:%s" % (deny, tgt, cover, default_enabled, "".join("1" if g[1] else "0" for _n, g in sorted(got.items()))),
+            "executed": len(lines), "opened": len(opens)}
+    return viols, info
+
+
 def b1_check(case, env=None):
     """case: {"part":"B1","variant","kind","filtered","feed","entries": [0..2 deny entries], "hashes": forced hashes
     (= position of each entry in the deny table's iteration order)}"""
@@ -1192,6 +1312,10 @@ def run_B(unit, tier, res):
             for kind in (KINDS if variant in FILE_VARIANTS else ["Text"]):
                 case = {"part": "B3", "variant": variant, "kind": kind, "target": unit["target"]}
                 _record(res, case, b3_check)
+    elif sub == "B7":
+        for deny, tgt in B7_DENY:
+            for cover, de in B7_MANIFEST:
+                _record(res, {"part": "B7", "deny": deny, "target": tgt, "cover": cover, "default_enabled": de}, b7_check)
     elif sub == "B5":
         for fi in B5_FILES:
             for co in B5_COMMANDS:
@@ -1725,6 +1849,7 @@ def units(tier, seed):
         us.append({"part": "B", "sub": "B2", "spec": name})
     us.append({"part": "B", "sub": "B4"})
     us.append({"part": "B", "sub": "B5"})
+    us.append({"part": "B", "sub": "B7"})
     us.append({"part": "B", "sub": "B6"})
     for links in C_LAYOUTS[tier]:
         for i in range(4):
@@ -1777,6 +1902,8 @@ def replay(case):
         viols, _ = b4_check(case)
     elif part == "B5":
         viols, _ = b5_check(case)
+    elif part == "B7":
+        viols, _ = b7_check(case)
     elif part == "B6":
         viols, _ = b6_check(case)
     elif part in ("C", "C2"):
